@@ -31,6 +31,7 @@ def dispatch (op : String) (payload : Json) : R Json :=
   | "analyse_file" => File.handleFile payload
   | "pipeline" => Pipeline.handle payload
   | "cross_resolve" => C08.handle payload
+  | "results_project" => C14.handle payload
   | _ => .error s!"unknown op {op}"
 
 partial def loop (h : IO.FS.Stream) (out : IO.FS.Stream) : IO Unit := do
